@@ -46,7 +46,7 @@ def run_config(cases, frontend, prefix):
     checks = {}
     try:
         coll = "/user/calendars/h/"
-        assert w.request("MKCALENDAR", coll).status == 201
+        assert w.request("MKCALENDAR", coll).status in range(200, 300)
         uid_for = {}
         by_uid = {}
         for i, c in enumerate(cases):
@@ -54,7 +54,7 @@ def run_config(cases, frontend, prefix):
             uid = "href-%d@example.com" % i
             r = w.request("PUT", coll + n, [("Content-Type", "text/calendar")], gamma.ics_event(uid, "n%d" % i))
             rec = {"name": c["name"], "frontend": frontend, "prefix": prefix, "put": "ok", "ctx": {}}
-            if r.status != 201:
+            if r.status not in range(200, 300):
                 rec["put"] = "refused-%d" % r.status
             else:
                 uid_for[n] = uid
@@ -131,7 +131,7 @@ def run_config(cases, frontend, prefix):
         body = gamma.ics_event("posted@example.com", "posted")
         r = w.request("POST", coll, [("Content-Type", "text/calendar")], body)
         loc = r.header("Location")
-        if r.status not in (200, 201) or not loc:
+        if r.status not in range(200, 300) or not loc:
             checks["post-location"] = "no-location(%d)" % r.status
         else:
             checks["post-location"] = deref(w, loc, "posted@example.com")
